@@ -33,6 +33,7 @@ func TestVerifC06(t *testing.T) {
 		if srv, err := vServer(vBundledRoot); err == nil {
 			c06NonZeroStart(rep, srv)
 			c06StartNumberOffset(rep, srv)
+			c06AfterStop(rep, srv)
 		}
 	}
 	job := 0
@@ -197,6 +198,59 @@ func c06StartNumberOffset(rep *vh.Report, srv *Server) {
 						if want := uint64(snr) + *st.PTO / *st.Duration; *st.StartNumber != want {
 							rep.Violate("C06.b", "number-period-offsets:snr", fmt.Sprintf("%s: Period %q %s: startNumber=%d, presentationTimeOffset=%d duration=%d with snr_%d: the segment at the period start has number %d in single-period mode", u, per.ID, as.ContentType, *st.StartNumber, *st.PTO, *st.Duration, snr, want), map[string]any{"url": u})
 						}
+					}
+				}
+			}
+		}
+	}
+}
+
+// c06AfterStop: with a stop time the periods do not change their identity when the stop instant passes: every period
+// of the MPD just before the stop is in the MPD after it, with the same id and start (the presentation has ended,
+// nothing leaves it any more).
+func c06AfterStop(rep *vh.Report, srv *Server) {
+	for _, mode := range []string{"number", "tltime", "tlnr"} {
+		for _, p := range []int{60, 120} {
+			var base []string
+			switch mode {
+			case "tltime":
+				base = append(base, "segtimeline_1")
+			case "tlnr":
+				base = append(base, "segtimelinenr_1")
+			}
+			base = append(base, "stop_1030", fmt.Sprintf("periods_%d", p))
+			get := func(t int64) (*vref.MPD, string) {
+				u := fmt.Sprintf("%s/testpic_2s/Manifest.mpd?nowMS=%d", vCfgPrefix(base...), t)
+				r := vGet(srv, u)
+				rep.AddExecs(1)
+				if r.Code != 200 {
+					return nil, u
+				}
+				m, err := vref.ParseMPD(r.Body)
+				if err != nil {
+					return nil, u
+				}
+				return m, u
+			}
+			before, _ := get(1_029_000)
+			if before == nil {
+				continue
+			}
+			for _, t := range []int64{1_030_001, 1_031_000, 1_045_000} {
+				after, u := get(t)
+				rep.AddStates(1)
+				rep.Hit("C06.a")
+				if after == nil {
+					continue
+				}
+				have := map[string]string{}
+				for _, per := range after.Periods {
+					have[per.ID] = per.Start
+				}
+				for _, per := range before.Periods {
+					if st, ok := have[per.ID]; !ok || st != per.Start {
+						rep.Violate("C06.a", "period-identity-after-stop:"+mode, fmt.Sprintf("%s: Period %q (start %s) of the MPD at 1029 s is not in the MPD after the stop time 1030 s (periods there: %v)", u, per.ID, per.Start, have), map[string]any{"url": u})
+						break
 					}
 				}
 			}
